@@ -51,6 +51,20 @@ CHECKS = {
         note='declared() readers are written from the specifications (DESIGN appendix B); structural equality '
              'compares asn1crypto values by DER.',
         design='3 (C03)'),
+    'C01': dict(
+        technique='Hypothesis spec-first generation of constructor arguments per class (166 classes of the binary '
+                  'families) + objects parsed from the unit-test corpus (all classes); round-trip oracle '
+                  'compose -> parse_exact_size/parse_immutable -> structural equality, recursive over nested '
+                  'parsable values and through variant wrappers',
+        text='~120 (thorough 2500) generated objects per class with a spec strategy, built from the wire grammar '
+             '(every enum member, unknown/GREASE codes where a fallback exists, vector sizes at both bounds, optional '
+             'arguments, boundary integers), plus every accepted corpus input of every concrete class; each is '
+             'composed, re-parsed and compared field by field, nested values included. Sampling; the text families '
+             '(HTTP headers, TXT policies) are reached through parsed corpus objects only here and through the '
+             'grammar generators of C05/C18.',
+        note='Structural equality defined in vf/core/lib.py; constructor rejections and wire-cannot-carry cases are '
+             'counted per class in the evidence.',
+        design='3 (C01)'),
 }
 
 NOT_YET = {}
